@@ -82,8 +82,35 @@ pub fn token_gaps(b: &[u8]) -> Vec<usize> {
 /// one random mutation; returns a short label of the mutation class
 pub fn mutate(r: &mut Rng, doc: &[u8]) -> (Vec<u8>, &'static str) {
     let mut b = doc.to_vec();
-    let k = r.below(16);
+    let k = r.below(18);
     match k {
+        16 | 17 => {
+            // something that is not a blank where blanks are expected: a control character (or a
+            // look-alike: VT, FF, NEL, NBSP, DEL) at a token gap, alone, between two blanks, or
+            // hidden somewhere in a run of up to 700 real blanks
+            let gaps = token_gaps(&b);
+            let at = (*r.pick(&gaps)).min(b.len());
+            let odd: &[u8] = *r.pick(&[b"\x00" as &[u8], b"\x0b", b"\x0c", b"\x1f", b"\x01", b"\x7f", b"\x08", b"\xc2\x85", b"\xc2\xa0", b"\x1c", b"\x0e"]);
+            let run = match r.below(4) {
+                0 => 0,
+                1 => r.range(1, 4),
+                2 => r.range(60, 140),
+                _ => r.range(250, 700),
+            };
+            let pos = if run == 0 { 0 } else { r.below(run as u64 + 1) as usize };
+            let mono = r.chance(1, 2);
+            let mut ins: Vec<u8> = Vec::with_capacity(run + odd.len());
+            for i in 0..=run {
+                if i == pos {
+                    ins.extend_from_slice(odd);
+                }
+                if i < run {
+                    ins.push(if mono { b' ' } else { *r.pick(b" \t\r\n   ") });
+                }
+            }
+            b.splice(at..at, ins);
+            (b, "odd-byte-among-blanks")
+        }
         0 => {
             // truncate
             let n = r.below(b.len() as u64 + 1) as usize;
